@@ -170,6 +170,12 @@ structure Def where
   qual   : String
   /-- identifies the script text: equal ids ⇔ equal generated source -/
   script : Nat
+  /-- the definition is refused AFTER its methods were generated and compiled (an inherited
+      `__attrs_init_subclass__`, a base `__init_subclass__` or a metaclass raises): no class comes into
+      existence.  Such a definition has gone through `_linecache_and_compile` like any other — it is a
+      thread of the transition system — and the refusal itself is not a cache operation: there is no
+      step for it, so it cannot change the cache. -/
+  fails  : Option Bool := none
   deriving DecidableEq, Repr, FromJson, ToJson, Inhabited
 
 structure CacheCase where
